@@ -61,15 +61,12 @@ Definition splitext (p : str) : str * str :=
   else (p, []).
 
 (* ---- plugin/__init__.py:56-80 PluginGroupNotFound / PluginNotFound.__init__ ----
-   error classes: 1 = PluginGroupNotFound, 2 = PluginNotFound.  The constructor of
-   PluginNotFound asserts that the group ends with ".suffixes" when the name starts with a
-   period; find_plugin(group, ".x") therefore dies with AssertionError (Crash). *)
+   error classes: 1 = PluginGroupNotFound, 2 = PluginNotFound.  Since fix 3f5a30c the
+   constructor of PluginNotFound picks its message by the group and asserts nothing:
+   whatever the name looks like, a plug-in that is not found is a PluginNotFound. *)
 Definition cls_group_not_found : N := 1.
 Definition cls_plugin_not_found : N := 2.
-Definition plugin_not_found {X} (group name : str) : res X :=
-  if startswith name [c_dot]
-  then (if endswith group s_suffixes then PyErr cls_plugin_not_found (-1) else Crash)
-  else PyErr cls_plugin_not_found (-1).
+Definition plugin_not_found {X} (group name : str) : res X := PyErr cls_plugin_not_found (-1).
 
 (* _RUNTIME_PLUGINS.get(search_group, {}).get(name), followed by "is not None" *)
 Definition rt_lookup (r : rt) (g n : str) : option klass :=
